@@ -17,7 +17,7 @@ LEMMAS = {
 TIMEOUT = {"quick": 150, "thorough": 600}
 
 META = dict(
-    functions=["pydrobert.torch._parsing." + f for f in ("write_trn", "read_trn", "read_trn_iter", "_trn_line_to_transcript", "write_ctm", "read_ctm", "write_textgrid", "transcript_to_token", "token_to_transcript")],
+    functions=["pydrobert.torch._parsing." + f for f in ("write_trn", "read_trn", "read_trn_iter", "_trn_line_to_transcript", "write_ctm", "read_ctm", "write_textgrid", "read_textgrid", "transcript_to_token", "token_to_transcript")],
     files=["src/pydrobert/torch/_parsing.py", "src/pydrobert/torch/_textgrid.py"],
     technique="CrossHair 0.0.110 (symbolic execution of the real Python parsing code with z3), one process per lemma, fixed per-condition timeout; seconds<->frames: proxy-number symbolic execution with z3 reals (checks/c11_frames.py)",
     explanation=(
@@ -29,15 +29,18 @@ META = dict(
         "is re-run concretely against the real code before it is reported.  Seconds<->frames (checks/c11_frames.py): transcript_to_token runs on symbolic "
         "real-valued start/end times (SymFloat proxies; its torch.empty buffer is replaced by a cell grid), the resulting frame numbers are fed as a symbolic tensor to "
         "token_to_transcript (each .item() forks over the feasible frames); asserted for every real 0 <= start <= end within the horizon: whole-number frames, "
-        "0 <= start frame <= end frame, same token ids, and both times recovered to within one frame shift."),
+        "0 <= start frame <= end frame, same token ids, and both times recovered to within one frame shift.  TextGrid values: write_textgrid -> read_textgrid with the "
+        "tier type left to be inferred, on symbolic grid times (the writer's float formatting forks through the solver, so every combination of start/end within the "
+        "grid is a path; the regex-driven reader then runs on concrete text): every token comes back with start and end within half a unit of the print precision."),
     bounds=dict(quick="tokens of 1-2 characters over {a,b}, utterance ids of 1-2 characters, 0..2 tokens per transcript, precision 0..6, three tier-type settings, per-condition timeout 150 s",
                 thorough="as quick plus three tokens; per-condition timeout 600 s",
-                frames="quick: frame shifts 10, 12.5 and 1/8 ms, times in [0, 3 shifts], one token (two for 10 ms); thorough: also 1/16, 1, 20 ms and 5 shifts"),
+                frames="quick: frame shifts 10, 12.5 and 1/8 ms, times in [0, 3 shifts], one token (two for 10 ms); thorough: also 1/16, 1, 20 ms and 5 shifts",
+                textgrid_values="quick: two time-ordered tokens, times k/4 (k<=6) at precision 0 and k/8 (k<=4) at precision 1; thorough: precisions 0..3, finer grids"),
     assumptions=["file objects replaced by a pure-Python in-memory file (io.StringIO is C code and would realise symbolic strings)",
                  "ctm/TextGrid times are concrete values on a dyadic grid (CrossHair models floats as reals, so symbolic times are outside)",
                  "seconds<->frames: Python float arithmetic modelled as real arithmetic (float outputs read back as the nearest rational with denominator <= 1e9); replays on the real code allow a 1e-9 slack"],
     outside=["trn alternates (nested {a / b}) and the ctm value round trip: CrossHair returns 'Not confirmed' within 150 s even for one symbolic token, or a counterexample that does not reproduce on the real code (symbolic float parsing); not claimed",
-             "TextGrid reading (regex-driven parser), float print precision, token2id/unk mapping in transcript_to_token, multi-process reading (worker schedules)"],
+             "TextGrid reading of arbitrary (not library-written) files, gap filling, tier selection, token2id/unk mapping in transcript_to_token, multi-process reading (worker schedules)"],
 )
 
 
